@@ -1,4 +1,4 @@
 SPECIFICATION Spec
 CONSTANT MaxChain = 3
-INVARIANTS PathShaped Emit
+INVARIANTS PathShaped Emit EmitNames
 CHECK_DEADLOCK FALSE
